@@ -84,7 +84,7 @@ class Glue:
         cells = tuple(ex.slice_cells(st, args[0]))
         if self.exact_overflow:
             # tier 5: the real fallback is running; decide "literal >= 2^1024 - 2^970" exactly
-            vnum, vden, vneg, vside = self.literal_value(cells)
+            vnum, vden, vneg, vside = self.literal_value(cells, st)
             thr = (1 << 1024) - (1 << 970)
             f = vnum >= thr * vden
             rt = self.lia.check(st.pc, st.extras, (), raw=list(st.raw) + vside + [f])
@@ -313,7 +313,22 @@ class Glue:
             bad.append(tz)
         elif atrunc:
             bad.append(z3.BoolVal(True))
-        r = lia.check(st.pc, st.extras, (), raw=list(st.raw) + bside + aside + [z3.Or(*bad)])
+        base = list(st.raw) + bside + aside + [z3.Or(*bad)]
+        lia.prefer_fresh = True     # long definitional chains: the preprocessing pipeline decides them, the incremental core stalls
+        try:
+            r = lia.check(st.pc, st.extras, (), raw=base)
+        finally:
+            lia.prefer_fresh = False
+        if r == 'unknown' and st.nondet:
+            # complete case split on the first unknown digit: 10 digit values + "anything else"
+            dz = lia.conv(st.nondet[0])
+            base2 = base + list(dz[3])
+            r = 'unsat'
+            for cs in [dz[0] == v for v in range(48, 58)] + [z3.Or(dz[0] < 48, dz[0] > 57)]:
+                r2 = lia.check(st.pc, st.extras, (), raw=base2 + [cs])
+                if r2 != 'unsat':
+                    r = r2
+                    break
         self.ses.obligations = getattr(self.ses, 'obligations', 0) + 1
         if r == 'unsat':
             rec[0] += 1
